@@ -132,7 +132,7 @@ func c07Gen(r *driver.Rand, thorough bool) *driver.Plan {
 		p.SetX("stderr", 1)
 	}
 	if r.Chance(1, 3) {
-		p.SetX("err_kind", 1+r.Intn(2)) // the failures wrap context.Canceled / DeadlineExceeded
+		p.SetX("err_kind", 1+r.Intn(3)) // the failures wrap context.Canceled / DeadlineExceeded
 	}
 	cons := p.Consumers
 	p.Consumers = nil
@@ -143,9 +143,18 @@ func c07Gen(r *driver.Rand, thorough bool) *driver.Plan {
 	if r.Chance(1, 4) {
 		p.FnYields = 1 + r.Intn(2)
 	}
+	if r.Chance(1, 6) {
+		p.FnStallMs = []int{driver.Pick(r, 0, 1, 60), driver.Pick(r, 0, 60, 200)}
+	}
 	genSched(r, p)
 	if !isGenerator(sm.stage) && r.Chance(1, 8) {
 		p.SetX("uses", 2)
+	}
+	// a sequential reader: drains the error channel until it closes and looks at
+	// the values only then — fine as long as the values fit into the buffer
+	if !isGenerator(sm.stage) && p.X("stderr") == 0 && p.Cap >= 1 && len(modelOf(p).Out) <= p.Cap && r.Chance(1, 3) {
+		p.Consumers[0].AfterClosed = "consumer.err"
+		p.Consumers[0].StartMs = 0
 	}
 	// fail-fast ends the stage at the first failure, whatever the producer
 	// does afterwards: it may well keep its channel open for ever
@@ -238,6 +247,11 @@ func c07Final(e *driver.Env) {
 		c07Closed(s)
 		return
 	}
+	// under Try a generator goes on after a failure: it ends only when cancelled
+	if s.Out.Closed && (!e.Cancelled.Load() || s.Out.CloseSeq < e.CancelSeq) {
+		e.Failf("C07.g", "generator ended although no fail-fast error occurred and nobody cancelled it", "%s/%s fail_at=%v: output closed after %d values", p.Stage, p.Mode, p.FailAt, len(s.Out.Got))
+		return
+	}
 	// cancelled generators: value prefix was checked online; every failure that
 	// precedes the last delivered value must have produced its error
 	if s.Err != nil && p.Mode == "try" && len(s.Out.Got) > 0 {
@@ -260,6 +274,11 @@ func c07Final(e *driver.Env) {
 		for _, f := range fails {
 			if f < idx && (len(must) == 0 || must[len(must)-1] != f) {
 				must = append(must, f)
+			}
+		}
+		if p.X("err_kind") == 3 {
+			for i := range must {
+				must[i] = sentinelID
 			}
 		}
 		if len(errIDs) < len(must) || !eqInts(errIDs[:len(must)], must) {
